@@ -170,6 +170,7 @@ def int_kernel(name, params, stmts, inputs=None, result=None):
 T1C_PRELUDE = [
     'Fixpoint src_zindex (x : Z) (l : list Z) : Z := match l with [] => 0 | y :: r => if x =? y then 0 else 1 + src_zindex x r end.',
     'Definition src_znth (l : list Z) (i : Z) : Z := nth (Z.to_nat i) l 0.',
+    'Fixpoint src_sindex (x : string) (l : list string) : Z := match l with [] => 0 | y :: r => if String.eqb x y then 0 else 1 + src_sindex x r end.',
 ]
 
 
@@ -287,8 +288,8 @@ def _texpr(n, env):
             return ('(' + ' || '.join('%s %s %s' % (fn, cstr(x), s) for x in ls) + ')', 'bool')
         if isinstance(f, ast.Attribute) and f.attr == 'index' and len(n.args) == 1 and not n.keywords:
             (l, tl), (x, tx) = _texpr(f.value, env), _texpr(n.args[0], env)
-            need(tl == 'list Z' and tx == 'Z', 'kernel: index on %s' % tl)
-            return ('(src_zindex %s %s)' % (x, l), 'Z')
+            need((tl, tx) in (('list Z', 'Z'), ('list string', 'string')), 'kernel: index on %s' % tl)
+            return ('(%s %s %s)' % ('src_zindex' if tx == 'Z' else 'src_sindex', x, l), 'Z')
         if isinstance(f, ast.Name) and f.id == 'bool' and len(n.args) == 1 and not n.keywords:
             x, tx = _texpr(n.args[0], env)
             need(tx == 'bool', 'kernel: bool() of a %s' % tx)
@@ -858,6 +859,33 @@ def main(out_path):
         setsz = [n for n in ast.walk(run) if isinstance(n, ast.If) and ast.unparse(n.test) == 'smallest_modulus > 0' and any('set_dh_modulus_size' in ast.unparse(x) for x in n.body[:1])]
         need(len(setsz) == 1, 'gextest: `if smallest_modulus > 0:` guarding set_dh_modulus_size and the rating')
     soft('group-exchange probe decisions (GEXTest.run)', ['C12'], ex_gex_decisions)
+
+    def ex_outbuf():
+        t_ob = ast.parse(src('outputbuffer.py'))
+        cls = func_node(t_ob, 'OutputBuffer')
+        lv = [n for n in cls.body if isinstance(n, ast.AnnAssign) and isinstance(n.target, ast.Name) and n.target.id == 'LEVELS']
+        need(len(lv) == 1 and isinstance(lit(lv[0].value), tuple) and all(isinstance(x, str) for x in lit(lv[0].value)), 'OutputBuffer.LEVELS')
+        w('Definition src_outbuf_levels : list string := ' + cstrs(list(lit(lv[0].value))) + '.')
+        gl = func_node(t_ob, 'OutputBuffer.get_level')
+        need([a.arg for a in gl.args.args] == ['self', 'name'], 'get_level signature')
+        # sys.maxsize stands for "not a level: never filtered"; any value above every level index does (the model says None)
+        w('Definition src_maxsize : Z := 9223372036854775807.')
+        w(kernel('src_get_level', [('name', 'string')], gl.body, inputs={'self.LEVELS': ('src_outbuf_levels', 'list string'), 'sys.maxsize': ('src_maxsize', 'Z')}))
+        pr = func_node(t_ob, 'OutputBuffer._print')
+        body = [st for st in pr.body if not (isinstance(st, ast.Expr) and isinstance(st.value, ast.Constant))]
+        need(len(body) >= 2 and isinstance(body[0], ast.If) and len(body[0].body) == 1 and isinstance(body[0].body[0], ast.Return) and body[0].body[0].value is None and not body[0].orelse,
+             '_print: starts with the level filter (`if ...: return`)')
+        ins = {'self.json': ('json', 'bool'), 'self.get_level(level)': ('lvl', 'Z'), 'self.__level': ('cur', 'Z')}
+        w(kernel('src_print_filtered', [('always_print', 'bool'), ('json', 'bool'), ('lvl', 'Z'), ('cur', 'Z')], [ast.Return(value=body[0].test)], inputs=ins))
+        need(isinstance(body[1], ast.If) and not body[1].orelse and len(body[1].body) == 1 and isinstance(body[1].body[0], ast.Assign) and ast.unparse(body[1].body[0].targets[0]) == 's', '_print: the colouring step follows the filter')
+        ins2 = {'self.use_colors': ('use_colors', 'bool'), 'self.colors_supported': ('true', 'bool')}
+        w(kernel('src_print_coloured', [('use_colors', 'bool'), ('s', 'string'), ('level', 'string')], [ast.Return(value=body[1].test)], inputs=ins2))
+        fmt = body[1].body[0].value
+        need(isinstance(fmt, ast.BinOp) and isinstance(fmt.op, ast.Mod) and isinstance(fmt.left, ast.Constant) and fmt.left.value == '\x1b[0;%dm%s\x1b[0m' and ast.unparse(fmt.right) == '(self.COLORS[level], s)', '_print: colour escape format')
+        cols = [n for n in cls.body if isinstance(n, ast.Assign) and isinstance(n.targets[0], ast.Name) and n.targets[0].id == 'COLORS']
+        need(len(cols) == 1 and isinstance(lit(cols[0].value), dict), 'OutputBuffer.COLORS')
+        w('Definition src_outbuf_colors : list (string * Z) := ' + clist(lit(cols[0].value).items(), lambda kv: cpair(cstr(kv[0]), cz(kv[1]))) + '.')
+    soft('level filter and colouring (OutputBuffer)', ['C15'], ex_outbuf)
 
     globals()['LAST_SOFT_FAILURES'] = soft_failures
 
